@@ -349,13 +349,21 @@ def mergeJson (base : Json) (addition : List (Str × Json)) : Json :=
 
 /-! ## writing -/
 
+/-- split at the first line feed: (text before it, the rest after it) – `s[i..].find('\n')` -/
+def splitAtNl : Str → Str × Option Str
+  | [] => ([], none)
+  | c :: t =>
+    if c == '\n' then ([], some t)
+    else match splitAtNl t with
+      | (l, r) => (c :: l, r)
+
 /-- `support::str::write_indented` : the segments it writes, in order -/
 def indentedSegments (indent : Str) : Nat → Str → List Str
   | 0, _ => []
   | fuel + 1, s =>
-    match s.span (· != '\n') with
-    | (line, []) => [line]                       -- no newline left: write the rest
-    | (line, _ :: rest) =>
+    match splitAtNl s with
+    | (line, none) => [line]                       -- no newline left: write the rest
+    | (line, some rest) =>
       let seg := line ++ ['\n']
       if rest.isEmpty then [seg] else seg :: indent :: indentedSegments indent fuel rest
 
